@@ -36,6 +36,9 @@ structure Sc where
   fwdMax    : Array (Option Nat) := #[none, none]                 -- per side: largest new cumulative TSN it put in a (I-)FORWARD-TSN
   eofs      : List (Nat × Nat) := []  -- (reader side, stream) that reported end-of-file
   closes    : List (Nat × Nat) := []  -- (writer side, stream) closed by its writer
+  aborter   : Option Nat := none     -- side whose Abort() call has returned
+  injected  : String := ""            -- teardown mode: what was injected
+  abortLost : Bool := false           -- the network dropped an ABORT packet
   shutdownOk : List Nat := []        -- sides whose Shutdown() returned nil
   lateHashes : List Nat := []        -- payload hashes of writes attempted after shutdown began
   deriving Inhabited
